@@ -12,7 +12,7 @@ DECL_INPUT(z256_in);
 
 #define FIELD_R sm2_z256_modp_to_mont,sm2_z256_modp_from_mont,sm2_z256_modp_mont_mul,sm2_z256_modp_mont_sqr
 
-//@job name=sm2_point_from_bytes props=C12 enforce=sm2_z256_point_from_bytes replace=sm2_z256_modp_to_mont,sm2_z256_point_is_on_curve layer=proved-relative-to-UF-field
+//@job name=sm2_point_from_bytes props=C12,C20 enforce=sm2_z256_point_from_bytes replace=sm2_z256_modp_to_mont,sm2_z256_point_is_on_curve layer=proved-relative-to-UF-field
 void h_sm2_point_from_bytes(void)
 {
 	SM2_STATICS_INIT;
